@@ -609,6 +609,19 @@ func detOutputs(seed uint64, count int) []string {
 	}
 	// the very first look-ups of a process (lazily loaded tables) answer like every later one
 	out = append(out, fmt.Sprintf("names-first:%v %v %v %v", names.ToUnicode("dalethatafpatah", false), names.ToUnicode("a7_a8", true), names.FromUnicode(0x05D3), names.ToUnicode("Aacute", false)))
+	// programs whose result depends on the order in which forall visits a dictionary
+	for pi, prog := range []string{"<< /a 1 /b 2 /c 3 /d 4 >> { pop exit } forall", "<< /N1 1 /N2 2 /N3 3 /N4 4 /N5 5 /N6 6 >> { pop exit } forall",
+		"[ << /q 1 /w 2 /e 3 /r 4 /t 5 /y 6 >> { pop } forall ]", "systemdict { pop exit } forall", "[ errordict { pop } forall ]"} {
+		res, _, _ := runProgram(100000, false, []byte(prog))
+		out = append(out, fmt.Sprintf("forall%d:%x", pi, sha256.Sum256([]byte(res))))
+	}
+	{
+		// a CMap file that picks its name inside such a loop
+		c := randCMap(newRng(5))
+		c.name = "Picked"
+		data := bytes.Replace(c.render(newRng(5), "none"), []byte("/CMapName /Picked def"), []byte("<< /N1 1 /N2 2 /N3 3 /N4 4 /N5 5 >> { pop /CMapName exch def exit } forall"), 1)
+		out = append(out, fmt.Sprintf("cmap-forall:%x", sha256.Sum256([]byte(runInput("cmap", bytes.NewReader(data))))))
+	}
 	for i := 0; i < count; i++ {
 		f := randFont(newRng(r.next()), false)
 		for _, g := range f.Glyphs {
